@@ -38,6 +38,7 @@ func VerifHarness_C06_glob() {
 
 func init() {
 	rt.Register("C06_glob", VerifHarness_C06_glob)
+	rt.Register("C06_basename", VerifHarness_C06_basename)
 	rt.Register("C06_layouts", VerifHarness_C06_layouts)
 	rt.Register("C06_volume_names", VerifHarness_C06_volume_names)
 }
@@ -229,4 +230,51 @@ func VerifHarness_C06_volume_names() {
 	}
 	_, rerr := checkRepair(s, false, 1)
 	rt.Assert(rerr == nil, "Repair restores both missing files from three blocks")
+}
+
+// The name arithmetic between the index path and the directory search: with a
+// base name of 1..3 symbolic bytes over the letters of the extension itself,
+// dots and spaces, LoadParityData must ask for exactly <dir>/<base>. + .par2.
+// Together with C06_glob (the search itself) this gives: the recovery files
+// beside the index are found whatever the base name.
+type c06RecIO struct {
+	indexPath      string
+	index          []byte
+	prefix, suffix string
+	calls          int
+}
+
+func (r *c06RecIO) ReadFile(p string) ([]byte, error) {
+	if p == r.indexPath {
+		return append([]byte(nil), r.index...), nil
+	}
+	return nil, &ioFault{"read of a path that is not the index"}
+}
+
+func (r *c06RecIO) FindWithPrefixAndSuffix(prefix, suffix string) ([]string, error) {
+	r.prefix, r.suffix = prefix, suffix
+	r.calls++
+	return nil, nil
+}
+
+func (r *c06RecIO) WriteFile(p string, data []byte) error { return &ioFault{"write"} }
+
+func VerifHarness_C06_basename() {
+	n := 1 + rt.Choice("len", 3)
+	bb := rt.Bytes("base", n)
+	for _, c := range bb {
+		rt.Assume(rt.OneOf(c, "xpar2. "))
+	}
+	base := string(bb)
+	setID, pk, _ := c06Packets([]c06File{{"f0", []byte{1, 2, 3, 4, 5}}})
+	io := &c06RecIO{indexPath: "/d/" + base + ".par2", index: refWrite(setID, pk, -1, 0)}
+	d, err := newDecoder(io, DoNothingDecoderDelegate{}, io.indexPath, 1)
+	rt.Assert(err == nil, "the index file is read")
+	if err != nil {
+		return
+	}
+	err = d.LoadParityData()
+	rt.Assert(err == nil, "LoadParityData succeeds on an empty search result")
+	rt.Assert(io.calls == 1, "one directory search")
+	rt.Assert(io.prefix == "/d/"+base+"." && io.suffix == ".par2", "the search is for <index path without extension>. and the index's extension, whatever the base name")
 }
